@@ -523,6 +523,28 @@ def step (v : Variant) (s : State) : Label → Option (State × Res)
     | .recv => if s.liveR = 0 then none else some (s, .bool s.chan.isDisconnectedR)
   | .isTerminated => if s.liveR = 0 then none else some (s, .bool s.chan.isTerminated)
 
+/-! Equation lemmas are realised here, once, so that importing modules never generate clashing copies. -/
+section realise
+variable (v : Variant) (s : State) (l : Label) (i : SigId) (m : Msg) (o : SigSt) (b : Bool) (g : Sig)
+example : step v s l = step v s l := by simp only [step]
+example : step v s l = step v s l := by unfold step; rfl
+example : sendStep s m b none = sendStep s m b none := by unfold sendStep; rfl
+example : recvStep s b b = recvStep s b b := by unfold recvStep; rfl
+example : sendStep s m b none = sendStep s m b none := by simp only [sendStep]
+example : recvStep s b b = recvStep s b b := by simp only [recvStep]
+example : rearm v g = rearm v g := by unfold rearm; rfl
+example : recvRes .empty .none s = recvRes .empty .none s := by simp only [recvRes]
+example : s.finalize i o = s.finalize i o := by unfold State.finalize; rfl
+example : s.deliverTo i m = s.deliverTo i m := by unfold State.deliverTo; rfl
+example : s.claimFrom i = s.claimFrom i := by unfold State.claimFrom; rfl
+example : s.takeFrom i = s.takeFrom i := by unfold State.takeFrom; rfl
+example : s.failBack m b = s.failBack m b := by unfold State.failBack; rfl
+example : s.terminateList [] = s.terminateList [] := by unfold State.terminateList; rfl
+example : s.dropMsgs [] = s.dropMsgs [] := by unfold State.dropMsgs; rfl
+example : s.slotMsg i = s.slotMsg i := by unfold State.slotMsg; rfl
+example : s.aliveSigs .send = s.aliveSigs .send := by unfold State.aliveSigs; rfl
+end realise
+
 /-- Run a list of labels; `none` if one of them is not enabled. -/
 def run (v : Variant) : State → List Label → Option (State × List Res)
   | s, [] => some (s, [])
